@@ -176,9 +176,11 @@ Dispatch(m, svc, segs, data, cap, choice, kind, viaUcs, routeSegs) ==
 (* ------------------------------------------------------------------------------------------------------------ *)
 (* One request frame.                                                                                              *)
 TxStep0(m, ev) ==
+    \* a connection whose size is not the one the driver packs for breaks every transfer sized between the two
+    LET SizeUsers == IF m.lx.on THEN "+C01:negotiated-size+C02:negotiated-size" ELSE "" IN
     IF Has(ev.choice, "incomplete") THEN Bad(m, "C11:framing")
     ELSE LET pf == ParseFrame(ev.b)  ch == ev.choice IN
-    IF ~pf.ok THEN Bad(m, pf.why)
+    IF ~pf.ok THEN Bad(m, pf.why \o (IF m.call.api \in {"open", "enter"} THEN (IF m.closedOnce THEN "+C10:reopen" ELSE "+C10:open-failed") ELSE ""))   \* a target refuses a malformed frame: the open it belongs to cannot succeed
     ELSE IF m.pend.kind # "none" THEN Bad(m, "MACHINERY:request-while-reply-pending")
     ELSE IF pf.kind = "register" THEN
         (IF pf.handle # Zero4 THEN Bad(m, "C11:handle")
@@ -217,9 +219,9 @@ TxStep0(m, ev) ==
             ELSE IF ~(Len(cp.segs) >= 2 /\ SegsEq(SubSeq(cp.segs, Len(cp.segs) - 1, Len(cp.segs)), <<Seg("class", 2), Seg("instance", 1)>>)) THEN Bad(m, "C09:meaning")
             ELSE IF ~SegsEq(SubSeq(cp.segs, 1, Len(cp.segs) - 2), m.route) THEN Bad(m, "C15:route-in-forward-open+C09:route-meaning")
             ELSE IF fo.large /\ ~m.extended THEN Bad(m, "C10:fo-order")
-            ELSE IF ~fo.large /\ m.extended /\ ~m.largeRefused THEN Bad(m, "C10:fo-order")
-            ELSE IF fo.large /\ fo.size # m.cfgsize THEN Bad(m, "C10:fo-size+C04:negotiated-size")
-            ELSE IF ~fo.large /\ m.extended /\ fo.size # 500 THEN Bad(m, "C10:fo-size+C04:negotiated-size")
+            ELSE IF ~fo.large /\ m.extended /\ ~m.largeRefused THEN Bad(m, "C10:fo-order" \o (IF fo.size # 500 THEN "+C04:negotiated-size" \o SizeUsers ELSE ""))
+            ELSE IF fo.large /\ fo.size # m.cfgsize THEN Bad(m, "C10:fo-size+C04:negotiated-size" \o SizeUsers)
+            ELSE IF ~fo.large /\ m.extended /\ fo.size # 500 THEN Bad(m, "C10:fo-size+C04:negotiated-size" \o SizeUsers)
             ELSE IF m.policy = "AllRefused" \/ (fo.large /\ m.policy = "LargeRefused")
                  THEN Good([m EXCEPT !.pend = [kind |-> "reply", bytes |-> RRReply(pf.handle, pf.ctx, FOReplyRefused(q.svc)),
                                                tell |-> [k |-> IF fo.large THEN "largeRefused" ELSE "none"]]])
@@ -329,7 +331,9 @@ RetStep(m, ev) ==
               ELSE IF ~TagTruthy(tg[1]) /\ (~IsS(tg[1].error) \/ Len(tg[1].error.s) = 0) THEN Bad(m, "C13:empty-error")
               ELSE Good(m))
         ELSE IF m.last.k # "script" THEN Good(m)
-        ELSE IF m.last.status = 6 /\ it.service \in {3, 10, 82, 83, 85} THEN Good(m)     \* partial transfer on a service that may continue: unspecified here
+        ELSE IF m.last.status = 6 /\ it.service \in {3, 10, 82, 83, 85}                 \* partial transfer on a service that may continue: success or
+             THEN (IF ~TagTruthy(tg[1]) /\ (~IsS(tg[1].error) \/ Len(tg[1].error.s) = 0)    \* failure is unspecified here, but a failure says why
+                   THEN Bad(m, "C13:empty-error+C14:status-text") ELSE Good(m))
         ELSE IF m.last.status # 0 THEN
              (IF TagTruthy(tg[1]) THEN Bad(m, "C13:success-on-error+C14:refused-truthy")
               ELSE IF ~IsS(tg[1].error) \/ Len(tg[1].error.s) = 0 THEN Bad(m, "C13:empty-error+C14:status-text")
@@ -384,7 +388,9 @@ Step(m, ev) ==
                           !.inClose = ev.api \in {"close", "exit"}, !.closeFault = FALSE,
                           !.policy = IF ev.api = "_env" /\ Has(ev.intent, "policy") THEN ev.intent.policy ELSE @,   \* the target's admission policy changes
                           !.ident = IF ev.api = "_env" /\ Has(ev.intent, "identity") THEN ev.intent.identity ELSE @,  \* the device was exchanged
-                          !.lx = LxCall(m.lx, ev)])
+                          !.lx = IF ev.api = "_env" /\ Has(ev.intent, "project") /\ m.lx.on            \* a new program was downloaded
+                                 THEN [LxCall(m.lx, ev) EXCEPT !.P = ev.intent.project, !.mem = ev.intent.mem, !.pre = ev.intent.mem]
+                                 ELSE LxCall(m.lx, ev)])
       [] ev.k = "socknew" -> Good(m)
       [] ev.k = "mutated" ->                               \* a result returned earlier was changed by a later call
            Bad(m, CASE ev.api \in {"_list_identity", "get_module_info", "get_plc_info"} -> "C16:result-mutated"
